@@ -16,7 +16,8 @@ from harness import protocol as P
 from harness import scenarios as S
 from harness import forge as F
 from harness import kernel as K
-from harness.world import State, HarnessError
+from harness.continuous import ContinuousWorld
+from harness.world import State, HarnessError, Wedged as WorldWedged, world_digest
 
 ck = Check('C17', 'fault_enumeration')
 LINE_CAP = 3_000_000
@@ -416,8 +417,22 @@ def blind(w, data):
     return data[0:8] not in known and data[8:16] not in known
 
 
-def inject_and_finish(w0, kind, target, label, payload, src=None):
-    w = w0.fork()
+def continuous_at(pos):
+    """the reference session up to position pos on a world whose event loops are never left (harness/continuous.py)"""
+    w = S.new_world(S.base_confs(), cls=ContinuousWorld)
+    w.sent_log = []
+    n = 0
+    if pos:
+        for ev in session_events(w):
+            w.step(ev)
+            n += 1
+            if n == pos:
+                break
+    return w
+
+
+def inject_and_finish(w0, kind, target, label, payload, src=None, continuous=False):
+    w = w0 if continuous else w0.fork()
     before_lines = None
 
     def go():
@@ -435,7 +450,7 @@ def inject_and_finish(w0, kind, target, label, payload, src=None):
     if not ep.alive:
         return [('loop-exit:%s' % ep.dead_reason[0],
                  '%s left main_loop: %s' % (ep.dead_reason[0], ep.dead_reason[1][:200]))], lines
-    if kind == 'kevent':
+    if kind == 'kevent' and not continuous:
         # ... and nothing else happens for a while: whatever the odd kernel event left behind, every timer of the daemon
         # (retransmission, liveness, rekey) gets its turn without taking the daemon down
         idle = w.fork()
@@ -484,16 +499,41 @@ def inject_and_finish(w0, kind, target, label, payload, src=None):
     return [], lines
 
 
+CONT = [None]
+
+
 def work(case):
+    CONT[0] = None
+    r = _work(case)
+    return r[0], r[1], (r[2], CONT[0])
+
+
+def _work(case):
     pos, kind, target, idx = case
     w0 = POSITIONS[pos][1]
-    if kind == 'dgram':
-        corpus = unauth_corpus(w0, target) + auth_corpus(w0, target)
-        label, data, src = corpus[idx]
-        res, lines = inject_and_finish(w0, 'dgram', target, label, data, src)
-    elif kind == 'kevent':
-        label, raw = kernel_corpus(w0, target)[idx]
-        res, lines = inject_and_finish(w0, 'kevent', target, label, raw)
+    if kind in ('dgram', 'kevent'):
+        if kind == 'dgram':
+            corpus = unauth_corpus(w0, target) + auth_corpus(w0, target)
+            label, data, src = corpus[idx]
+        else:
+            label, data = kernel_corpus(w0, target)[idx]
+            src = None
+        res, lines = inject_and_finish(w0, kind, target, label, data, src)
+        if not res:
+            # the same with the event loops never left: whatever main_loop keeps in its own frame stays alive
+            wc = continuous_at(pos)
+            try:
+                if world_digest(wc) != world_digest(w0):
+                    CONT[0] = 'position-differs'
+                else:
+                    try:
+                        res_c, _ = inject_and_finish(wc, kind, target, label, data, src, continuous=True)
+                    except WorldWedged:
+                        res_c = [('wedged', 'a pass of the event loop did not come back to select()')]
+                    CONT[0] = 'run'
+                    res = [(sig + ':loop-never-left', msg) for sig, msg in res_c]
+            finally:
+                wc.close()
     elif kind in ('sendfail', 'kfail'):
         # the idx-th send / netlink request of the *next legitimate step* fails
         label = '%s#%d' % (kind, idx[0]) + (':' + idx[1] if kind == 'sendfail' else '')
@@ -682,7 +722,9 @@ def main():
     outcomes = collections.Counter()
     labels = set()
     maxlines = 0
-    for case, (label, res, lines) in zip(cs, ck.pmap(work, cs)):
+    cont = collections.Counter()
+    for case, (label, res, (lines, c_mode)) in zip(cs, ck.pmap(work, cs)):
+        cont[c_mode] += 1
         labels.add(label)
         if lines:
             maxlines = max(maxlines, lines)
@@ -717,6 +759,8 @@ def main():
                             'counted, then the session is completed and compared; distinct_nontrivial = distinct hostile '
                             'item labels', samples=sorted(labels)[:40], exhaustive=True,
                        session_positions=len(POSITIONS), max_lines_in_one_iteration=maxlines, line_cap=LINE_CAP,
+                       cases_repeated_with_the_event_loop_never_left=cont.get('run', 0),
+                       continuous_positions_that_differ_from_the_stepping_model=cont.get('position-differs', 0),
                        outcome_counts={'%s:%s' % k: v for k, v in sorted(outcomes.items())})
     ck.assumptions += ['bounded time = executed line events of one main_loop iteration <= %d' % LINE_CAP,
                        'well-protected malformed input from the authenticated peer may end that IKE_SA; the daemon must '
